@@ -30,6 +30,8 @@ def main():
     ap.add_argument("--start", type=int, default=0)
     ap.add_argument("--replay", default=None)
     ap.add_argument("--hashseed", default="0")
+    ap.add_argument("--digests", type=int, default=None)
+    ap.add_argument("--reverse", action="store_true")
     ap.add_argument("--version", action="store_true")
     a = ap.parse_args()
     if a.version:
@@ -65,6 +67,13 @@ def main():
         ap.print_help()
         return 2
     prop = a.prop.upper()
+    if a.digests is not None:
+        import json
+
+        from simkit import selftest
+
+        print("DIGESTS " + json.dumps(selftest.digests(prop, seed, a.digests, a.reverse, a.start)))
+        return 0
     try:
         if a.replay:
             return runner.replay_main(prop, a.replay, repo)
